@@ -242,7 +242,7 @@ def decide(spec, group, tier, seed, replay=None):
     for xgroup, xgen in spec.get('extra', []):
         with core.Scratch() as scr:
             exe, err, t_h = core.build_harness(scr, xgroup['name'], xgroup['sources'], xgroup.get('repo_sources', ()),
-                                               xgroup.get('flags', ()), xgroup.get('libs', ('-lgmpxx', '-lgmp')))
+                                               xgroup.get('flags', ()), xgroup.get('libs', ('-lgmpxx', '-lgmp')), sanitize=xgroup.get('sanitize', True))
             if exe is None:
                 broken.append('harness %s does not compile against the working tree: %s' % (xgroup['name'], (err or '')[-1200:]))
                 continue
